@@ -1,8 +1,9 @@
-from . import cli, streams_tables, streams_par
+from . import cli, streams_tables, streams_par, streams_gathermeshb
 
 ID = 'C07'
-PROPS_MODULE = ['Refine.Props.C07', 'Refine.Props.C07Gather']
+PROPS_MODULE = ['Refine.Props.C07', 'Refine.Props.C07Gather', 'Refine.Props.C07GatherMeshb']
 STREAMS = [streams_tables.PART, streams_par.GATHER_NODE, streams_par.GATHER_CELL, streams_par.GATHER_FILE,
+           streams_gathermeshb.GATHERMESHB,
            cli.NPINDEP, cli.CONVERT_MPI, cli.DISTANCE_MPI, cli.INTERP_MPI]
 EXPLANATION = ('Proved over the macros generated from ref_part.h: implicit block partition is a partition of [0,N) '
                'into np contiguous blocks whose sizes differ by at most one, and ref_part_implicit returns the unique '
@@ -16,6 +17,12 @@ EXPLANATION = ('Proved over the macros generated from ref_part.h: implicit block
                '(gather_node_fails_iff); chunk >= 1 iff reduce_byte_limit <= 0 or >= 32, otherwise the loop never '
                'advances (chunk_positive, gather_node_hang); the owner rule of ref_cell_part makes ref_gather_cell '
                'emit every cell of the global mesh exactly once with its tag, for every partition (gather_cell_once). '
+               'Proved about the whole parallel libMeshb writer (Props/C07GatherMeshb over Model/GatherMeshb, see C08): '
+               'gatherMeshb_content / gatherMeshb_np_independent — for any two distributions (rank counts, partitions, ghost '
+               'layers, local orders, reduce byte limits) of the same global mesh the files hold the same ordered vertex '
+               'list bit for bit, the same multiset of cells per group (vertex order and id kept) and the same multiset of '
+               'geometry association records per type, each exactly once; gatherMeshb_chunk_independent. '
+               'Tie: stream gathermeshb[np=1..5], bytes of the real ref_gather_by_extension(".meshb") == model. '
                'Tie: the real static ref_gather_node / ref_gather_cell and ref_gather_by_extension (.meshb) under mpiexec at np = 1,2,3,4,5,8 against '
                'the model on generated worlds. End to end (no model side): translate / distance / interpolate / '
                'format conversion with ref and refmpi, outputs compared with the serial run (vertices in the same '
